@@ -472,3 +472,28 @@ pub const I32S: [i32; 30] = [
 ];
 
 pub const O16: [i16; 12] = [0, 1, 7, 8, -1, -8, 127, 128, -128, -129, 32767, -32768];
+
+// ------------------------------------------------------------------------------------------
+// Corpus recorder (C20): check functions of the text engine hand their inputs over instead of
+// checking when recording is on.
+
+thread_local! {
+    static REC: std::cell::RefCell<Option<Vec<Value>>> = const { std::cell::RefCell::new(None) };
+}
+
+pub fn rec_start() {
+    REC.with(|r| *r.borrow_mut() = Some(vec![]));
+}
+pub fn rec_on() -> bool {
+    REC.with(|r| r.borrow().is_some())
+}
+pub fn rec_push(v: Value) {
+    REC.with(|r| {
+        if let Some(x) = r.borrow_mut().as_mut() {
+            x.push(v)
+        }
+    });
+}
+pub fn rec_take() -> Vec<Value> {
+    REC.with(|r| r.borrow_mut().take().unwrap_or_default())
+}
